@@ -50,7 +50,11 @@ Definition nanfix (a b r : N) : N :=
   else if fisnan b then N.lor b quiet_bit
   else if fisnan r then qnan_neg else r.
 
-Definition fadd (a b : N) : N := nanfix a b (bits32 (b32_plus mode_NE (b32 a) (b32 b))).
+(* sums are only ever compared (top-P cumulative sum, multinomial accumulation), so every NaN
+   result is canonicalised; products (Temperature) are observable and keep the SSE payload rule *)
+Definition fadd (a b : N) : N :=
+  let r := bits32 (b32_plus mode_NE (b32 a) (b32 b)) in
+  if fisnan a || fisnan b || fisnan r then qnan_neg else r.
 Definition fmul (a b : N) : N := nanfix a b (bits32 (b32_mult mode_NE (b32 a) (b32 b))).
 Definition fdiv (a b : N) : N := nanfix a b (bits32 (b32_div mode_NE (b32 a) (b32 b))).
 
